@@ -325,6 +325,8 @@ func checkC03(c *Ctx) {
 	c.checkPairAccessors("O5 pair-accessors")
 	c.checkBucketsUsed("O7 buckets-used")
 	c.checkCachedBucketPerBucket("O8 cached-bucket-per-bucket")
+	// the specification a histogram was asked for is never reordered or otherwise modified (shared with C20 O3)
+	c.checkNoBucketMutation("O5 caller-slice")
 	// O6: a histogram uses the bounds it was created with (shared with C20 O4)
 	c.checkBucketCacheGet("O6 own-buckets")
 	c.checkBucketsEqual("O6 own-buckets-equal")
